@@ -13,7 +13,8 @@ macro_rules! __unparenthesize_ty {
 #[macro_export]
 macro_rules! __unparen_pat {
     (($(|)? $($pat:pat_param)|+)) => { ($($pat)|+) };
-    (($($stuff:tt)*)) => { $($stuff)* };
+    // keeping the parentheses, because this can be a tuple pattern
+    (($($stuff:tt)*)) => { ($($stuff)*) };
     ($($stuff:tt)*) => { $($stuff)* };
 }
 
